@@ -46,7 +46,7 @@ def payloads(rng, tier):
     seeds = {"quick": 50, "thorough": 500, "search": 20}[tier]
     for k in range(1, 7):
         for i in range(seeds if k <= 4 else max(5, seeds // 10)):
-            yield "table", {"k": k, "seed": rng.randrange(2 ** 31) if i else 2021}
+            yield "table", {"k": k, "seed": [2021, 0, 1, 2 ** 32 - 1][i] if i < 4 else rng.randrange(2 ** 31)}
 
 
 def build(stream, p):
@@ -86,6 +86,7 @@ def build(stream, p):
 
     def run():
         a = dsw.create_random_shuffles(observed_length=k, random_seed=seed)
+        np.random.random(size=3)       # disturb the global random state between the two calls
         b = dsw.create_random_shuffles(observed_length=k, random_seed=seed)
         return a, b
 
